@@ -227,6 +227,9 @@ class Outcome:
     _seen_viol: set = field(default_factory=set)
     _seen_known: set = field(default_factory=set)
 
+    def __post_init__(self):
+        shutil.rmtree(REPLAYS / self.pid, ignore_errors=True)  # replay files of earlier runs are stale
+
     def add_tlc(self, name: str, r: TLCResult) -> None:
         self.states += r.distinct
         self.transitions += r.generated
